@@ -1030,9 +1030,16 @@ var longTable = []struct {
 	{"87", "c10-mask-counter-19429", 41},
 	{"87", "c10-long-28472", 39},
 	{"87", "c10-long-892", 45},
+	{"87", "c10-long-67796", 37},
+	{"87", "c10-long-99616", 45},
+	{"87", "c10-long-220060", 37},
+	{"87", "c10-long-264896", 37},
 	{"87", "c10-long-20832", 36},
 	{"87", "c10-long-4280", 34},
 	{"65", "c10-long-18128", 56},
+	{"65", "c10-long-166856", 56},
+	{"65", "c10-long-268918", 57},
+	{"65", "c10-long-317409", 56},
 	{"65", "c10-long-12680", 48},
 	{"44", "c10-long-13199", 32},
 	{"44", "c10-long-19322", 31},
